@@ -12,7 +12,8 @@
 (*          (ivx = exception class if reading it raised, else "").          *)
 (* The history is replayed through ModelStore's own call layer: the model  *)
 (* variable m follows the implementation's decision (Apply when the call   *)
-(* returned, unchanged when it raised) and every disagreement with the     *)
+(* returned, unchanged when it raised; re-synchronised with the recorded    *)
+(* model after a Stored / Unchanged fault) and every disagreement with the  *)
 (* specification is remembered in `bad` as <<clause, step, feature>>:      *)
 (*   Accept        Verdict = "yes" but the call raised                      *)
 (*   Reject        Verdict = "no" but the call returned (ill-typed / non-   *)
@@ -67,12 +68,17 @@ TraceInit == /\ tid \in DOMAIN Traces /\ l = 1 /\ vs = <<>> /\ Init
 TraceNext ==
    /\ l <= Len(Traces[tid].steps)
    /\ LET r == Traces[tid].steps[l] IN
-      \* the specification's own action when the implementation's decision is one the guard allows,
-      \* otherwise the decision is followed and remembered as a fault
-      /\ IF r.ok THEN (IF Enabled(m, r.s) /\ Verdict(m, r.s) # "no" THEN Accepts(r.s)
-                       ELSE m' = Apply(m, r.s) /\ last' = [s |-> r.s, ok |-> TRUE])
-                 ELSE (IF Enabled(m, r.s) /\ Verdict(m, r.s) # "yes" THEN Rejects(r.s)
-                       ELSE m' = m /\ last' = [s |-> r.s, ok |-> FALSE])
+      \* the specification's own action when the implementation's decision is one the guard allows and
+      \* the recorded model is the specified one; otherwise the decision is followed (and the model is
+      \* re-synchronised with the recorded one, so that one fault is reported once and later calls are
+      \* judged against the model the implementation really holds) -- Faults remembers why
+      /\ LET s  == r.s
+             m2 == IF r.ok THEN Apply(m, s) ELSE m
+             synced  == Diff(r.post, m2) = ""
+             allowed == Enabled(m, s) /\ Verdict(m, s) # (IF r.ok THEN "no" ELSE "yes")
+         IN IF allowed /\ synced THEN (IF r.ok THEN Accepts(s) ELSE Rejects(s))
+            ELSE /\ m' = IF synced THEN m2 ELSE AsModel(r.post)
+                 /\ last' = [s |-> s, ok |-> r.ok]
       /\ bad' = bad \o Faults(r, l, m, bad)
       /\ vs' = Append(vs, Verdict(m, r.s))
    /\ l' = l + 1 /\ tid' = tid
